@@ -16,7 +16,15 @@ fn observe(env: &Env, stream: &[u8]) -> (Vec<Item>, String) {
 }
 
 fn observe_process(env: &Env, stream: &[u8]) -> (Vec<vcore::ast::Ev>, Vec<u8>) {
-    let po = vrun::process::<Fx, 1024>(Some(env), &[], stream, &[], None);
+    // a read schedule derived from the bytes themselves (single bytes, pairs, or everything at once):
+    // variations that only show at a read boundary are then visible too
+    let reads: Vec<usize> = match hash_of(stream) % 4 {
+        0 => vec![],
+        1 => vec![1; stream.len()],
+        2 => vec![2; stream.len()],
+        _ => (0..stream.len()).map(|i| 1 + (hash_of(&(stream, i)) % 5) as usize).collect(),
+    };
+    let po = vrun::process::<Fx, 1024>(Some(env), &[], stream, &reads, None);
     vrun::observation(&po.log, &[])
 }
 
